@@ -75,6 +75,7 @@ SetSeq(S) == IF S = {} THEN <<>> ELSE LET x == CHOOSE x \in S : TRUE IN <<x>> \o
 Generate(t, rows, sel) ==
     CASE sel.form = "models" /\ Len(sel.models) = 0 -> [err |-> TRUE, lists |-> <<>>]      \* at least one model
       [] sel.form \in {"all", "any"} /\ Len(sel.conds) = 0 -> [err |-> TRUE, lists |-> <<>>]  \* at least one condition
+      [] sel.form \in {"all", "any"} /\ \E i \in DOMAIN sel.conds : ~CondWellFormed(t, sel.conds[i]) -> [err |-> TRUE, lists |-> <<>>]
       [] sel.form = "models" ->
             LET hits == UNION {CacheByModel(t, rows, sel.models[i]) : i \in DOMAIN sel.models}
             IN  IF hits # {} THEN [err |-> FALSE, lists |-> [i \in 1..Cardinality(hits) |-> ByUUID(SetSeq(hits)[i])]]
@@ -96,6 +97,12 @@ Meant(t, rows, sel) ==
     CASE sel.form = "models" -> UNION {CacheByModel(t, rows, sel.models[i]) : i \in DOMAIN sel.models}
       [] sel.form = "all" -> Select(t, rows, sel.conds)
       [] sel.form = "any" -> UNION {Select(t, rows, <<sel.conds[i]>>) : i \in DOMAIN sel.conds}
+
+\* a selection that cannot be built (no model, no condition, an ordering function on a column that has no order)
+\* lists nothing and reports an error
+SelError(t, sel) ==
+    \/ sel.form = "models" /\ Len(sel.models) = 0
+    \/ sel.form \in {"all", "any"} /\ (Len(sel.conds) = 0 \/ \E i \in DOMAIN sel.conds : ~CondWellFormed(t, sel.conds[i]))
 
 \* ------------------------------------------------------------ the calls
 Err == [err |-> TRUE, ops |-> <<>>]
@@ -132,6 +139,7 @@ MutationValid(t, mu) ==
     LET c == Col(t, mu[1])
     IN  /\ c.mut
         /\ \/ /\ mu[2] \in ArithMutators /\ c.kind \in {"atom", "set"} /\ c.key.t \in {"integer", "real"}
+              /\ c.kind = "atom" => Len(c.key.enum) = 0          \* "enums do not support mutation"
               /\ mu[2] = "%=" => c.key.t = "integer"
               /\ mu[2] \in {"/=", "%="} => ~ArithDomainError(c.key.t, mu[2], mu[3])
            \/ mu[2] \in {"insert", "delete"} /\ c.kind \in {"set", "map"}
